@@ -26,9 +26,10 @@ RULE = ("scenario = seeded world (draft, root schema with definitions, 0-3 remot
         "exception while >=1 extra resolution scope was pushed (measured by reach probe), AND a later operation, "
         "performed by the fresh-validator oracle, resolved >=1 reference; distinct = distinct scenario digests")
 
-REQUIRED_PROBES = ("abandon_with_scopes_pushed", "abandon_with_2plus_scopes_pushed", "gc_finalised_iterator_and_popped",
-                   "consumer_died_with_scopes_pushed", "fault:handler_fail_first", "op_ended_in_exception",
-                   "fault:collab_raise", "fault:net_short_body", "fault:gc_inside_operation")
+REQUIRED_PROBES = ("fault:handler_fail_first", "op_ended_in_exception", "fault:collab_raise", "fault:net_short_body",
+                   "fault:gc_inside_operation", "abandon_suspended")
+EXPECTED_PROBES = ("abandon_with_scopes_pushed", "abandon_with_2plus_scopes_pushed", "gc_finalised_iterator_and_popped",
+                   "consumer_died_with_scopes_pushed")
 
 VALIDATION_OPS = ["is_valid", "exhaust", "validate", "take_close", "take_drop", "take_cycle",
                   "tree", "best_match", "consumer_raises"]
